@@ -236,6 +236,15 @@ func borrowedGenerators() map[string]func(g *prng.R) *sim.Scenario {
 		"c06.blocked": func(g *prng.R) *sim.Scenario { return genBlocked(g).Sc },
 		"c16":         func(g *prng.R) *sim.Scenario { return genC16(g).Sc },
 		"c17":         func(g *prng.R) *sim.Scenario { return genC17(g).Sc },
+		"c03.handler": func(g *prng.R) *sim.Scenario { return genHandlerCase(g).Sc },
+		"c20.pages": func(g *prng.R) *sim.Scenario {
+			// both boxes served from random pages with duplicates anywhere
+			sc := baseScenario()
+			sc.InboxPage = genPage(g, aliceIn())
+			sc.OutboxPage = genPage(g, aliceOut())
+			sc.Requests = []sim.Request{sim.GetReq("GetInbox", aliceIn()), sim.GetReq("GetOutbox", aliceOut())}
+			return sc
+		},
 	}
 }
 
